@@ -215,7 +215,7 @@ func c09(c *Ctx) {
 			pfx := fmt.Sprintf("%s accept #%d ", name, ai+1)
 			inRangeGate := core.BoolCallGate("inRange", true, func(c2 *ssa.Call) bool {
 				f2 := core.StaticCalleeFn(c2)
-				return f2 != nil && containsFn(inRangeFns(p), f2)
+				return f2 != nil && (containsFn(inRangeFns(p), f2) || containsFn(inRangeWrappers(p), f2))
 			})
 			w := core.InstrGuarded(ap, inRangeGate.Edge, nil)
 			r.Check(w == nil, "R2.accept-gates", pfx+"in-range", p.Pos(ap.Pos()), "only under in-range == true", "a key outside the radius can be accepted: "+p.PathString(w))
